@@ -1,6 +1,9 @@
 package lzma
 
-import "unsafe"
+import (
+	"io"
+	"unsafe"
+)
 
 // Lemmas TC1-TC4, OP2, OP3 (C01, C02, C03, C06, C07): the bit-level codecs
 // and the operation layer over the IDEAL BIT CHANNEL. The range coder is cut
@@ -668,4 +671,157 @@ func VH_OP3_readOp() {
 		vAssert(err == nil && isMatch && m.n == int(length) && m.distance == int64(dist)+1, "match length and distance = specification")
 	}
 	vAssert(stL == s.state && repL == s.rep, "coder state number and rep0..rep3 = specification")
+}
+
+// ---- OP4 (C05, C06, C07, C09, C11, C13): decoder.decompress / decoder.Read control ----
+//
+// The termination logic of the decoder from an ARBITRARY state: readOp and
+// apply are cut to their contracts (readOp: any operation of length 1..273,
+// the end marker, io.EOF, or another error; apply: the dictionary grows by
+// the operation's length), the dictionary ring is a slice of symbolic length
+// (every reader configuration has Cap >= 4096). Asserted against the three
+// termination modes of the format.
+
+type vOP4 struct {
+	d       *decoder
+	calls   int
+	lastErr error
+	marker  bool // the model delivered the end marker
+	ops     int
+}
+
+var vOp4 *vOP4
+
+var vErrOther = vErrSrc
+
+func vReadOpModel(d *decoder) (operation, error) {
+	vOp4.calls++
+	switch vConcretize(int(vNondetU8("readOp")) % 4) {
+	case 0:
+		n := int(vNondetU16("oplen"))
+		vAssume(n >= 1 && n <= maxMatchLen)
+		vAssume(vOp4.ops < 3) // bound: at most three operations per decompress call
+		vOp4.ops++
+		return match{distance: 1, n: n}, nil
+	case 1:
+		vOp4.marker = true
+		d.eosMarker = true
+		vOp4.lastErr = errEOS
+		return nil, errEOS
+	case 2:
+		vOp4.lastErr = io.EOF
+		return nil, io.EOF
+	}
+	vOp4.lastErr = vErrOther
+	return nil, vErrOther
+}
+
+func vApplyModel(d *decoder, op operation) error {
+	n := op.Len()
+	vAssert(n <= d.Dict.Available(), "an operation is only applied when the window has room for it")
+	d.Dict.buf.front = d.Dict.buf.addIndex(d.Dict.buf.front, n)
+	d.Dict.head += int64(n)
+	return nil
+}
+
+func VH_OP4_decompress() {
+	vSubst("(*decoder).readOp", vReadOpModel)
+	vSubst("(*decoder).apply", vApplyModel)
+	vUnwind(6)
+	// window sizes at the lower boundary and one large one (a symbolic ring length makes
+	// the modular index arithmetic too hard for the solvers: unknown at 60 s)
+	ri := vConcretize(int(vNondetU8("ring")) % 3)
+	vAssume(ri%vShards() == vShardIdx())
+	ringLen := []int{4097, 4098, 1<<16 + 1}[ri]
+	dd := &decoderDict{}
+	dd.buf.data = vOpaqueLen(make([]byte, 2), ringLen)
+	dd.buf.front, dd.buf.rear = vNondetInt("front"), vNondetInt("rear")
+	vAssume(dd.buf.front >= 0 && dd.buf.front < ringLen && dd.buf.rear >= 0 && dd.buf.rear < ringLen)
+	dd.head = vNondetI64("head")
+	start := vNondetI64("start")
+	size := vNondetI64("size")
+	vAssume(start >= 0 && start <= dd.head && dd.head < 1<<50 && size >= -1 && size < 1<<50)
+	code := vNondetU32("code")
+	d := &decoder{Dict: dd, State: &state{}, rd: &rangeDecoder{code: code, nrange: 0xffffffff}, start: start, size: size}
+	d.eos = vNondetBool("eos")
+	// reachable states: the declared size has not been exceeded yet
+	vAssume(d.eos || size < 0 || dd.head-start < size || (size == 0 && dd.head == start))
+	vOp4 = &vOP4{d: d}
+	wasEOS := d.eos
+	head0 := dd.head
+	err := d.decompress()
+	produced := dd.head - start
+	if wasEOS {
+		vAssert(err == io.EOF && vOp4.calls == 0 && dd.head == head0, "a finished decoder stays finished and reads nothing")
+		return
+	}
+	if err == io.EOF {
+		// clean end: exactly the three termination modes of the format
+		viaMarker := vOp4.marker && code == 0 && (size < 0 || size == produced)
+		viaSize := size >= 0 && produced == size && (code == 0 || vOp4.marker)
+		vAssert(viaMarker || viaSize, "clean end only if (marker seen, coder at end, size unknown or met) or (declared size met exactly and coder at end or marker follows)")
+		vAssert(d.eos, "a clean end is sticky")
+	}
+	if vOp4.lastErr == io.EOF {
+		vAssert(err == io.ErrUnexpectedEOF, "end of input inside an operation is an unexpected EOF, never a clean end")
+	}
+	if vOp4.lastErr == vErrOther {
+		vAssert(err == vErrOther, "a source error is returned unchanged")
+	}
+	if size >= 0 && produced > size {
+		vAssert(err != nil && err != io.EOF, "more data than declared is an error")
+	}
+	if size == 0 && code == 0 && dd.head == head0 && dd.buf.Available() >= maxMatchLen {
+		vAssert(err == io.EOF && vOp4.calls == 0, "declared size 0 with the coder at end: empty stream, no operation required")
+	}
+	if err == nil {
+		vAssert(dd.buf.Available() < maxMatchLen, "decompress only stops without a verdict when the window is (nearly) full")
+		vAssert(vOp4.ops >= 1 || head0 == dd.head, "progress or no room")
+	}
+}
+
+// decoder.Read: delivers buffered bytes, io.EOF only when nothing is buffered
+// and the stream is over, never more than len(p); a zero-length Read does not
+// report EOF while data is pending.
+func VH_OP4_read() {
+	vSubst("(*decoder).readOp", vReadOpModel)
+	vSubst("(*decoder).apply", vApplyModel)
+	vUnwind(8)
+	capN := 4096 + vConcretize(int(vNondetU8("extra"))%2)
+	dd, err := newDecoderDict(capN)
+	vAssert(err == nil, "dictionary")
+	ringLen := capN + 1
+	dd.buf.front, dd.buf.rear = vNondetInt("front"), vNondetInt("rear")
+	vAssume(dd.buf.front >= 0 && dd.buf.front < ringLen && dd.buf.rear >= 0 && dd.buf.rear < ringLen)
+	buffered := dd.buf.Buffered()
+	vAssume(buffered <= 4 || buffered >= capN-2) // few pending bytes, or a nearly full window
+	buffered = vConcretize(buffered)
+	dd.head = int64(buffered) + vNondetI64("consumed")
+	vAssume(dd.head >= int64(buffered) && dd.head < 1<<40)
+	size := vNondetI64("size")
+	vAssume(size >= -1 && size < 1<<40)
+	d := &decoder{Dict: dd, State: &state{}, rd: &rangeDecoder{code: vNondetU32("code"), nrange: 0xffffffff}, start: 0, size: size}
+	d.eos = vNondetBool("eos")
+	vAssume(d.eos || size < 0 || dd.head < size || (size == 0 && dd.head == 0))
+	vOp4 = &vOP4{d: d}
+	plen := vConcretize(int(vNondetU8("plen")) % 4)
+	p := make([]byte, plen)
+	n, rerr := d.Read(p)
+	vAssert(n >= 0 && n <= plen, "never more bytes than requested")
+	if buffered > 0 {
+		vAssert(!(n == 0 && rerr == io.EOF), "no end of stream is reported while decoded bytes are pending")
+		want := plen
+		if buffered < want && d.eos && vOp4.calls == 0 {
+			want = buffered
+		}
+		if vOp4.calls == 0 {
+			vAssert(n == want || rerr != nil, "pending bytes are delivered first")
+		}
+	}
+	if rerr == io.EOF {
+		vAssert(d.eos && dd.buf.Buffered() == 0, "io.EOF only when the stream is over and nothing is buffered")
+	}
+	if plen == 0 && buffered > 0 {
+		vAssert(n == 0 && rerr == nil, "a zero-length Read with data pending returns (0, nil)")
+	}
 }
